@@ -6,7 +6,8 @@ from . import progcommon as pc, tmpl
 
 RULE = ("case = one template program with a subsumptive clause whose dominance condition is a pure constraint forming a strict "
         "partial order on distinct tuples: bounded shortest paths (recursive; cost column compared with < or <=), "
-        "lexicographic two-cost Pareto fronts (recursive), interval containment and per-key maxima (non-recursive), with ties "
+        "lexicographic two-cost Pareto fronts (recursive), interval containment and per-key maxima (non-recursive), grids and "
+        "count-downs with hundreds of tuples and whole generations erased at once (multi-level deletable B-tree), with ties "
         "and chains of dominance, btree_delete or default storage; run by the real interpreter at -j1, -j4 and -j8. oracle, with "
         "U = all tuples derivable without subsumption (computed in Python): (1) no final tuple is dominated by another final "
         "tuple; (2) final is a subset of U; (3) the result is the same at every thread count; (4) for these monotone-cost "
@@ -16,7 +17,7 @@ RULE = ("case = one template program with a subsumptive clause whose dominance c
 
 def program(seed):
     rng = random.Random(seed)
-    shape = rng.choice(["sssp", "apsp", "apsp-nonlinear", "pareto", "interval", "keymax"])
+    shape = rng.choice(["sssp", "apsp", "apsp-nonlinear", "pareto", "interval", "keymax", "grid", "countdown", "keymax-large"])
     q = rng.choice(["btree_delete", "btree_delete", ""])
     o = []
     spec = dict(shape=shape)
@@ -83,6 +84,32 @@ def program(seed):
                     frontier = new
                 dom = lambda t, u: t != u and t[0] == u[0] and t[1] == u[1] and u[2] <= t[2]
                 spec.update(rel="dist", U=U, dom=dom)
+    elif shape == "grid":
+        # many keys, many candidates per key: hundreds of tuples, long runs of neighbouring tuples erased (multi-level deletable B-tree:
+        # merges, borrowing from either sibling, root collapse)
+        nx, nc = rng.randint(4, 40), rng.randint(2, 14)
+        lo = rng.randint(-3, 3)
+        o += [".decl n(x:number)", "n(x) :- x = range(0, %d)." % nx, ".decl c(x:number)", "c(x) :- x = range(%d, %d)." % (lo, lo + nc)]
+        op = rng.choice(["<", "<=", ">"])
+        o += [".decl g(x:number, c:number) %s" % q, ".output g", "g(x, v) :- n(x), c(v), (x + v) % 7 != 3.", "g(x, c1) <= g(x, c2) :- c2 " + op + " c1."]
+        U = {(x, v) for x in range(nx) for v in range(lo, lo + nc) if (x + v) % 7 != 3}
+        dom = (lambda t, u: t != u and t[0] == u[0] and u[1] >= t[1]) if op == ">" else (lambda t, u: t != u and t[0] == u[0] and u[1] <= t[1])
+        spec.update(rel="g", U=U, dom=dom)
+    elif shape == "countdown":
+        # recursive: every new tuple dominates the previous one of its key, so each iteration erases a whole generation
+        nx, top = rng.randint(5, 120), rng.randint(3, 30)
+        o += [".decl n(x:number)", "n(x) :- x = range(0, %d)." % nx]
+        o += [".decl cd(x:number, c:number) %s" % q, ".output cd", "cd(x, %d + (x %% 3)) :- n(x)." % top, "cd(x, c - 1) :- cd(x, c), c > 0.",
+              "cd(x, c1) <= cd(x, c2) :- c2 < c1."]
+        U = {(x, v) for x in range(nx) for v in range(0, top + (x % 3) + 1)}
+        dom = lambda t, u: t != u and t[0] == u[0] and u[1] <= t[1]
+        spec.update(rel="cd", U=U, dom=dom)
+    elif shape == "keymax-large":
+        rows = sorted({(rng.randint(0, 60), rng.randint(-50, 200)) for _ in range(rng.randint(100, 600))})
+        o += [".decl raw(k:number, v:number)"] + ["raw(%d, %d)." % t for t in rows]
+        o += [".decl best(k:number, v:number) %s" % q, ".output best", "best(k, v) :- raw(k, v).", "best(k, v1) <= best(k, v2) :- v1 < v2."]
+        dom = lambda t, u: t != u and t[0] == u[0] and t[1] <= u[1]
+        spec.update(rel="best", U=set(rows), dom=dom)
     elif shape == "interval":
         ivs = sorted({tuple(sorted((rng.randint(0, 12), rng.randint(0, 12)))) for _ in range(rng.randint(2, 25))})
         o += [".decl raw(lo:number, hi:number)"] + ["raw(%d, %d)." % t for t in ivs]
